@@ -453,8 +453,8 @@ def r7(F, rep):
     for c in dis:
         facts, _ = C.guard_facts(d, c, X.const_locals(d))
         dyn = any(t[0] == "true" and "is_dynamic(" in t[1] for t in facts)
-        zero = any((t[0] == "z" and "ref_count" in t[1]) or (t[0] == "cmp" and t[1] == "==" and "0" in (t[2], t[3])) or (t[0] == "eq" and "0" in t[1:]) or
-                   (t[0] in ("z", "eq") and "rc" in str(t)) for t in facts)
+        zero = any((t[0] in ("z", "nonpos") and ("ref_count" in t[1] or "rc" in t[1])) or
+                   (t[0] == "cmp" and t[1] in ("==", "<=") and "0" in (t[2], t[3])) or (t[0] == "eq" and "0" in t[1:]) for t in facts)
         rep.add("C13-R7", "auto-disable", d.loc(c), "decr_ref_count(): disable() is reached only for a dynamic feature (%s) whose count reached zero (%s)" % (dyn, zero),
                 dyn and zero, detail="a feature the user switched on would be switched off when an unrelated object that depended on it is deleted", func=d.q)
     e = F.one("colvardeps::enable")
